@@ -2,10 +2,11 @@ use rusty_common::{AtPos, CaseInsensitiveString, Position, Positioned};
 use rusty_linter::core::{LinterContext, ScopeName};
 use rusty_linter::names::Names;
 use rusty_parser::{
-    Assignment, BareName, BuiltInFunction, BuiltInSub, CaseBlock, ConditionalBlock, DimVar,
-    Expression, ExpressionType, FileHandle, FunctionImplementation, GlobalStatement,
+    ArrayDimension, Assignment, BareName, BuiltInFunction, BuiltInSub, CaseBlock,
+    ConditionalBlock, DimList, DimType, DimVar, DimVars, Expression, ExpressionPos,
+    ExpressionType, FileHandle, FunctionImplementation, GlobalStatement,
     HasExpressionType, IfBlock, Name, Parameter, Program, Statement, Statements,
-    SubImplementation, TypeQualifier, UserDefinedTypes,
+    SubImplementation, TypeQualifier, UnaryOperator, UserDefinedTypes,
 };
 use rusty_variant::Variant;
 
@@ -401,7 +402,129 @@ impl InstructionGenerator {
         }
     }
 
+    /// Records and arrays with literal bounds are not allocated by executing their DIM:
+    /// they exist from the start of the module or subprogram that declares them, so a
+    /// DIM that control flow jumped over (GOTO, a branch not taken) still counts.
+    /// Collects those DIM statements, also from the blocks nested in the given statements.
+    /// `can_bypass` is set if one of them is inside a block, or if there is a label (a jump
+    /// target or an error handler) anywhere: otherwise every DIM is executed before the
+    /// variable can be used.
+    fn collect_static_dims(
+        statements: &Statements,
+        nested: bool,
+        result: &mut Vec<DimList>,
+        can_bypass: &mut bool,
+    ) {
+        for Positioned { element, .. } in statements {
+            match element {
+                Statement::Dim(DimList { shared, variables }) => {
+                    let variables: DimVars = variables
+                        .iter()
+                        .filter(|v| Self::is_static_dim_type(v.element.var_type()))
+                        .cloned()
+                        .collect();
+                    if !variables.is_empty() {
+                        *can_bypass |= nested;
+                        result.push(DimList {
+                            shared: *shared,
+                            variables,
+                        });
+                    }
+                }
+                Statement::Label(_) => {
+                    *can_bypass = true;
+                }
+                Statement::IfBlock(IfBlock {
+                    if_block,
+                    else_if_blocks,
+                    else_block,
+                }) => {
+                    Self::collect_static_dims(&if_block.statements, true, result, can_bypass);
+                    for else_if_block in else_if_blocks {
+                        Self::collect_static_dims(
+                            &else_if_block.statements,
+                            true,
+                            result,
+                            can_bypass,
+                        );
+                    }
+                    if let Some(else_block) = else_block {
+                        Self::collect_static_dims(else_block, true, result, can_bypass);
+                    }
+                }
+                Statement::SelectCase(select_case) => {
+                    for case_block in &select_case.case_blocks {
+                        Self::collect_static_dims(
+                            case_block.statements(),
+                            true,
+                            result,
+                            can_bypass,
+                        );
+                    }
+                    if let Some(else_block) = &select_case.else_block {
+                        Self::collect_static_dims(else_block, true, result, can_bypass);
+                    }
+                }
+                Statement::ForLoop(for_loop) => {
+                    Self::collect_static_dims(&for_loop.statements, true, result, can_bypass);
+                }
+                Statement::While(block) => {
+                    Self::collect_static_dims(&block.statements, true, result, can_bypass);
+                }
+                Statement::DoLoop(do_loop) => {
+                    Self::collect_static_dims(&do_loop.statements, true, result, can_bypass);
+                }
+                _ => {}
+            }
+        }
+    }
+
+    fn is_static_dim_type(dim_type: &DimType) -> bool {
+        match dim_type {
+            DimType::UserDefined(_) => true,
+            DimType::Array(array_dimensions, _) => {
+                array_dimensions
+                    .iter()
+                    .all(|ArrayDimension { lbound, ubound }| {
+                        let lower = match lbound {
+                            Some(lbound) => Self::literal_bound(lbound),
+                            _ => Some(0),
+                        };
+                        // bounds that are not valid are left to fail where the DIM is
+                        matches!((lower, Self::literal_bound(ubound)), (Some(l), Some(u)) if l <= u)
+                    })
+            }
+            _ => false,
+        }
+    }
+
+    fn literal_bound(bound: &ExpressionPos) -> Option<i64> {
+        match &bound.element {
+            Expression::IntegerLiteral(i) => Some(i64::from(*i)),
+            Expression::LongLiteral(i) => Some(*i),
+            Expression::UnaryExpression(UnaryOperator::Minus, child) => {
+                Self::literal_bound(child).map(|i| -i)
+            }
+            Expression::Parenthesis(child) => Self::literal_bound(child),
+            _ => None,
+        }
+    }
+
+    /// Allocates the records and static arrays of a module or subprogram body up front,
+    /// if its control flow can bypass one of their DIM statements.
+    fn allocate_static_dims(&mut self, statements: &Statements) {
+        let mut static_dims: Vec<DimList> = vec![];
+        let mut can_bypass = false;
+        Self::collect_static_dims(statements, false, &mut static_dims, &mut can_bypass);
+        if can_bypass {
+            for dim_list in static_dims {
+                self.visit_dim_list_up_front(dim_list);
+            }
+        }
+    }
+
     fn visit_global_statements(&mut self, statements: Statements) {
+        self.allocate_static_dims(&statements);
         self.visit(statements);
 
         // add HALT instruction at end of program to separate from the functions and subs
@@ -473,6 +596,7 @@ impl InstructionGenerator {
     }
 
     fn subprogram_body(&mut self, block: Statements, pos: Position) {
+        self.allocate_static_dims(&block);
         self.visit(block);
         // to be able to RESUME NEXT if an error occurs on the last statement
         self.mark_statement_address();
